@@ -11,6 +11,7 @@ from hypothesis import strategies as st
 
 from .. import strategies as S
 from ..common import permuted
+from ..common import with_history  # noqa: E402
 
 # --------------------------------------------------------------------------
 # undirected hypergraph cases
@@ -66,6 +67,7 @@ def content(hc):
     return nodes, edges
 
 
+@with_history
 def build_hypergraph(hc, relabel=None, order_seed=None):
     """Build the real Hypergraph through the public API.
 
@@ -162,6 +164,7 @@ def directed_content(dc):
     return nodes, edges
 
 
+@with_history
 def build_directed(dc):
     from hypergraphx import DirectedHypergraph
     L = dc["labels"]
